@@ -602,6 +602,16 @@ func (h *handOff) OnHandOff(ctx context.Context, info *host.HandOffInfo) context
 	return ctx
 }
 
+// sharedHandOff is ONE hand-off callback used by every call (an option value built once, in a
+// slice with spare capacity): it logs into the recorder of whichever call fired it.
+type sharedHandOff struct{}
+
+func (sharedHandOff) OnHandOff(ctx context.Context, info *host.HandOffInfo) context.Context {
+	ev(ctx, "handoff:S:"+info.ToAgentName)
+	see(ctx, "shared hand-off callback", info.Argument)
+	return ctx
+}
+
 var hostScripts = []string{
 	"say:direct",
 	"call:smodel(why)",
@@ -684,7 +694,7 @@ func buildHost(r *lib.Rng, z *zoo) (*object, error) {
 		return nil, err
 	}
 	shape = append(shape, fmt.Sprintf("prompt:%v", withPrompt), fmt.Sprintf("hostchecker:%v", hostChecker))
-	sharedA := sharedAgentOpts()
+	sharedA := append(sharedAgentOpts(), host.WithAgentCallbacks(spare([]host.MultiAgentCallback{sharedHandOff{}})...))
 	// flow/agent/multiagent/host/compose.go:43-125
 	d := &dGraph{agentSt: true}
 	hostPrompt, specPrompt := "decide which tool is best for the task and call only the best tool.", ""
@@ -712,7 +722,7 @@ func buildHost(r *lib.Rng, z *zoo) (*object, error) {
 		kind: "host", shape: shape,
 		nIn: len(hostScripts), paras: []string{"invoke", "stream"},
 		// optMaxSteps bit is reused here for "with hand-off callbacks"
-		optSet:  []int{0, optMaxSteps, optLambdaDesignated, optCbGlobal, optMaxSteps | optCbGlobal | optLambdaDesignated, optCtxHandlers | optMaxSteps, optShared, optShared | optMaxSteps | optLambdaDesignated, optCbThree | optMaxSteps},
+		optSet:  []int{0, optMaxSteps, optLambdaDesignated, optCbGlobal, optMaxSteps | optCbGlobal | optLambdaDesignated, optCtxHandlers | optMaxSteps, optShared, optShared | optMaxSteps | optLambdaDesignated, optCbThree | optMaxSteps, optShared | optMaxSteps},
 		baseCtx: sharedCtx,
 		call: func(ctx context.Context, rc *callRec, sp spec) string {
 			in := []*schema.Message{schema.UserMessage(rc.tag + " " + hostScripts[sp.In%len(hostScripts)])}
